@@ -1404,7 +1404,7 @@ KNOWN_PREDICATES = [
 
 
 CHECKS = [
-    Check("histories", check_histories, strategy=strat_history, budget={"quick": 1000, "thorough": 14000},
+    Check("histories", check_histories, strategy=strat_history, budget={"quick": 1000, "thorough": 12000},
           shrink_quick=False,
           rule="model-based histories of 2-25 store operations over 1-3 files (see RULE)"),
     Check("isotherm_property_types", check_iso_prop_types, strategy=strat_iso_prop_types,
